@@ -48,7 +48,7 @@ TBody == AltE(<<SeqE(<<Str(<<a>>), Ref("t")>>), Str(<<b>>)>>)
 
 WBody == SeqE(<<Ref("s"), Str(<<b>>), Str(<<b>>)>>)
 CoreAtoms  == {Str(<<a>>), Str(<<b>>), Str(<<a, b>>), IStr(<<a>>), Rng(a, b), AnyC, Cls("ASCII_ALPHA_UPPER"),
-               Soi, Eoi, Ref("s"), Ref("t"), Ref("w")}
+               Soi, Eoi, Ref("s"), Ref("t"), Ref("w"), Str(<<>>)}      \* "" always matches, consuming nothing
 CoreAtomsS == {Str(<<a>>), Str(<<a, b>>), AnyC, Ref("s"), Ref("w")}          \* reduced set for the third level
 CoreT2(lz) == CoreAtoms \cup Un(CoreAtoms) \cup Bin(CoreAtoms, CoreAtoms)
 CoreT3(lz) == Un(CoreT2(0)) \cup Bin(CoreT2(0), CoreAtomsS) \cup Bin(CoreAtomsS, CoreT2(0)) \cup Tri(CoreAtomsS)
